@@ -412,6 +412,8 @@ func errKind(err error) string {
 		return "storage"
 	case errors.Is(err, context.Canceled) || errors.Is(err, context.DeadlineExceeded):
 		return "ctx"
+	case strings.Contains(msg, "incorrect UUID") || strings.Contains(msg, "Scan error") || strings.Contains(msg, "converting"):
+		return "storage"
 	case strings.Contains(msg, "does not exist") || strings.Contains(msg, "malformed"):
 		return "schema"
 	case strings.Contains(msg, "not implemented"):
@@ -444,6 +446,45 @@ func (e *engEnv) setLimits(c *EngCase) error {
 		e.lastWidth = c.Width
 	}
 	return nil
+}
+
+// poisonedRuns: the check with one stored row at a time made undecodable (see the caller).
+// Returns the column x_base=<fault-free answer> and x_poison=<answers>, or "".
+func (e *engEnv) poisonedRuns(c *EngCase, r interface{ Intn(int) int }) string {
+	base, calls := e.runCheck(c, true)
+	if calls > callBudget || len(c.Tuples) == 0 || !strings.HasSuffix(base, "/none") {
+		return ""
+	}
+	p := e.persister()
+	type idRow struct {
+		ID string `db:"shard_id"`
+	}
+	var ids []idRow
+	if err := p.Connection(e.ctx).RawQuery("SELECT shard_id FROM keto_relation_tuples WHERE nid = ? ORDER BY shard_id", p.NetworkID(e.ctx)).All(&ids); err != nil || len(ids) == 0 {
+		return ""
+	}
+	var out []string
+	n := len(ids)
+	tries := 5
+	if n < tries {
+		tries = n
+	}
+	start := r.Intn(n)
+	for k := 0; k < tries && !e.hung; k++ {
+		id := ids[(start+k*(n/tries+1))%n].ID
+		bad := "zz-" + id[3:]
+		if err := p.Connection(e.ctx).RawQuery("UPDATE keto_relation_tuples SET shard_id = ? WHERE shard_id = ? AND nid = ?", bad, id, p.NetworkID(e.ctx)).Exec(); err != nil {
+			continue
+		}
+		res, _ := e.runCheck(c, true)
+		cres, _ := e.runCheck(c, false)
+		_ = p.Connection(e.ctx).RawQuery("UPDATE keto_relation_tuples SET shard_id = ? WHERE shard_id = ? AND nid = ?", id, bad, p.NetworkID(e.ctx)).Exec()
+		out = append(out, res, cres)
+	}
+	if len(out) == 0 {
+		return ""
+	}
+	return "\tx_base=" + base + "\tx_poison=" + strings.Join(out, ",")
 }
 
 // runFresh runs the check on an engine of its own (a freshly started server), with the
